@@ -52,13 +52,13 @@ type Options struct {
 }
 
 var defaultShims = map[string]string{
-	"sync":                            shimPrefix + "sync",
-	"sync/atomic":                     shimPrefix + "atomic",
-	"time":                            shimPrefix + "time",
-	"context":                         shimPrefix + "context",
-	"golang.org/x/sync/errgroup":      shimPrefix + "errgroup",
-	"golang.org/x/sync/semaphore":     shimPrefix + "semaphore",
-	"math/rand/v2":                    shimPrefix + "randv2",
+	"sync":                        shimPrefix + "sync",
+	"sync/atomic":                 shimPrefix + "atomic",
+	"time":                        shimPrefix + "time",
+	"context":                     shimPrefix + "context",
+	"golang.org/x/sync/errgroup":  shimPrefix + "errgroup",
+	"golang.org/x/sync/semaphore": shimPrefix + "semaphore",
+	"math/rand/v2":                shimPrefix + "randv2",
 }
 
 var fsShims = map[string]string{
@@ -191,17 +191,17 @@ func contains(l []string, s string) bool {
 }
 
 type rewriter struct {
-	fset    *token.FileSet
-	info    *types.Info
-	opts    Options
-	file    string
-	pkgDir  string
-	tmp     int
-	usedMC  bool
+	fset       *token.FileSet
+	info       *types.Info
+	opts       Options
+	file       string
+	pkgDir     string
+	tmp        int
+	usedMC     bool
 	usedUnsafe bool
 	fieldOwner map[*types.Var]string
-	err     error
-	accSet  map[string]bool
+	err        error
+	accSet     map[string]bool
 }
 
 func (r *rewriter) site(p token.Pos) string {
